@@ -385,9 +385,9 @@ def append_byte_strings(str1: str, str2: str) -> str:
     """
     Appends two strings together and returns the result. Will convert to b-strings if the string is not already one.
     """
-    if not isinstance(str1, bytes):
+    if not isinstance(str1, (bytes, bytearray)):
         str1 = str1.encode()
-    if not isinstance(str2, bytes):
+    if not isinstance(str2, (bytes, bytearray)):
         str2 = str2.encode()
 
     return f"{str1}{str2}"
